@@ -295,6 +295,9 @@ func c06RouteFollower(o *hx.Out, rng *hx.Rng, lg *c06Log) {
 	cut := nE
 	if rng.Chance(50) && nE > 1 {
 		cut = 1 + rng.Intn(nE-1)
+		if lg.pivot > 0 && rng.Chance(70) {
+			cut = lg.pivot
+		}
 		route = "follower-restart"
 	}
 	last := func(k int) int64 { return lg.entries[k-1].w.offset }
@@ -330,6 +333,9 @@ func c06RouteElected(o *hx.Out, rng *hx.Rng, lg *c06Log) {
 	defer n.close()
 	nE := len(lg.entries)
 	k := rng.Intn(nE) // entries 0..k-1 are applied by the follower
+	if lg.pivot > 0 && rng.Chance(60) {
+		k = lg.pivot
+	}
 	committed := int64(-1)
 	if k > 0 {
 		committed = lg.entries[k-1].w.offset
@@ -372,6 +378,9 @@ func c06RouteElected(o *hx.Out, rng *hx.Rng, lg *c06Log) {
 func c06RouteFollowerSnapshot(o *hx.Out, rng *hx.Rng, lg *c06Log) {
 	nE := len(lg.entries)
 	cut := 1 + rng.Intn(nE) // the snapshot covers entries 0..cut-1
+	if lg.pivot > 0 && rng.Chance(60) {
+		cut = lg.pivot
+	}
 	src := newEnv(lg.shard, true)
 	defer src.close()
 	c06Prelude(src.db, lg)
@@ -733,6 +742,7 @@ func c06ReplayCtlLog(o *hx.Out, t []string) {
 	fmt.Sscan(t[3], &term)
 	lg := &c06Log{shard: shard, term: term, en: t[4] == "1"}
 	runCase(o, "seq", shard, false, "c06ctllog-replay", "", func(r *runner) {
+		r.ref = nil // C12's sequential reference is not this check's
 		r.do(fmt.Sprintf("T:%d:%d", term, b2i(lg.en)))
 		r.do(fmt.Sprintf("E:%d", b2i(lg.en)))
 		for _, op := range strings.Split(t[5], ";") {
@@ -741,6 +751,7 @@ func c06ReplayCtlLog(o *hx.Out, t []string) {
 		}
 		lg.final = r.do("D")
 	})
+	lg.pivot = c06Pivot(lg.entries)
 	rng := hx.NewRng(uint64(len(t[5])))
 	for k := 0; k < 3; k++ {
 		c06RouteFollower(o, rng.Fork(), lg)
